@@ -97,6 +97,10 @@ func TokText(c *xplore.Ctx, t Tok) string {
 			}
 			return t.Text
 		}
+		if strings.Contains(t.Text, "'") && ch(2) == 1 {
+			// the other quote character may be escaped too: "it\'s"
+			return strings.ReplaceAll(QuoteIdentSpec(t.Text), "'", `\'`)
+		}
 		return QuoteIdentSpec(t.Text)
 	case FUNC, TYPENAME:
 		if ch(2) == 1 {
@@ -104,6 +108,10 @@ func TokText(c *xplore.Ctx, t Tok) string {
 		}
 		return t.Text
 	case STR:
+		if strings.Contains(t.Text, `"`) && ch(2) == 1 {
+			// the other quote character may be escaped too: 'say \"hi\"'
+			return strings.ReplaceAll(QuoteStringSpec(t.Text), `"`, `\"`)
+		}
 		return QuoteStringSpec(t.Text)
 	case REGEX:
 		return "/" + strings.ReplaceAll(t.Text, "/", `\/`) + "/"
